@@ -559,10 +559,42 @@ def rule_flow_sync(ctx):
         r.instance(function=nid, role='remove-role', problems=probs, judged_through_callers=sorted(cs) if through_callers else None)
         if through_callers:
             continue
+        # the unlinking handed in as a closure by every caller (a constructor function may build it): judged per call site
+        UNL = {'admitted path does not unlink the access-order node': 'ao', 'admitted path does not unlink the write-order node': 'wo'}
+        bR = prog.bodies[nid]
+        fn_params = [i for i in range(1, bR.argc + 1) if ('Fn' in bR.local_ty(i)['s'] or 'closure' in bR.local_ty(i)['s'])]
+        if probs and set(probs) <= set(UNL) and fn_params:
+            okall, nsites = True, 0
+            for c_ in sorted(prog.callers().get(nid, ())):
+                bc = prog.bodies[c_]
+                for bi_, t_ in bc.calls():
+                    if nid not in prog.call_targets(bc, t_)[0]:
+                        continue
+                    nsites += 1
+                    clos = []
+                    for i in fn_params:
+                        if i - 1 < len(t_['args']):
+                            clos += prog.closure_of_operand(bc, t_['args'][i - 1])
+                    kinds = set()
+                    for cl in clos:
+                        for x in prog.reachable_from([cl]):
+                            wk = wrapper_kind(ctx, x)
+                            if wk and wk[0] == 'unlink':
+                                kinds.add(wk[1])
+                    good = kinds >= {UNL[p_] for p_ in probs}
+                    r.instance(function=nid, call_site_in=c_, unlink_closure=[x.split('::')[-2] + '::' + x.split('::')[-1] for x in clos], unlinks=sorted(kinds), ok=good)
+                    if not good:
+                        okall = False
+                        r.violate(c_, 'remove-role', 'unlink-closure:%s' % ','.join(sorted({UNL[p_] for p_ in probs} - kinds)), '%s calls the remove role %s with an unlink step that does not '
+                                  'unlink the %s node(s)' % (c_, nid, sorted({UNL[p_] for p_ in probs} - kinds)), where=ctx.where(c_, t_.get('line')))
+            if nsites and okall:
+                continue
         for pr in probs:
             r.violate(nid, 'remove-role', pr, 'remove role %s: %s' % (nid, pr), where=ctx.where(nid))
-    if len(roles) < 2:
-        raise CheckFailure('FLOW-counters(sync): expected 2 remove-role functions, found %s' % sorted(roles))
+    # (how many there are is free -- two specialised ones or one taking the unlinking as a closure; that every removed entry reaches one is
+    # the clause `removed-entry-dropped` below)
+    if len(roles) < 1:
+        raise CheckFailure('FLOW-counters(sync): no remove-role function found')
     # the upsert role: function consuming (old_weight, new_weight) of a write op
     from .roles import upsert_role
     ur = upsert_role(ctx)
